@@ -49,6 +49,8 @@ def responses(n, dt):
 
     add("unit", lambda f: np.ones(np.shape(f)) if np.ndim(f) else 1.0, lambda f: 1.0)
     add("half", lambda f: 0.5 * np.ones(np.shape(f)) if np.ndim(f) else 0.5, lambda f: 0.5)
+    g_ = 1.0 - 2.0 ** -18            # within 4e-6 of the unit response, but not the unit response
+    add("near_unit", lambda f, g_=g_: g_ * np.ones(np.shape(f)) if np.ndim(f) else g_, lambda f, g_=g_: g_)
     add("half_j", lambda f: 0.5j * np.ones(np.shape(f)) if np.ndim(f) else 0.5j, lambda f: 0.5j)
     for tau in sorted({1, 2, n // 2, n - 1, n, -1}):
         if tau == 0:
